@@ -271,6 +271,15 @@ pub fn slot_boundary_seeds(n: usize) -> Vec<(u64, usize)> {
     }
 }
 
+/// Seeds LE64(i) whose public key h has a coefficient equal to 0 (first entries) or to q-1 (last entries): the
+/// ends of the 14-bit field's valid range (found with `falcon-mc diag hzero` on the repaired tree).
+pub fn pk_edge_seeds(n: usize) -> Vec<u64> {
+    match n {
+        512 => vec![2, 13, 7, 41],
+        _ => vec![4, 8, 2, 18],
+    }
+}
+
 /// Seeds whose first NTRU candidate has a coefficient of F or G exactly on or next to the edge of the
 /// 8-bit field (found by `falcon-mc diag keygen-scan` over LE64(0..12288) for n = 512 and LE64(0..8192)
 /// for n = 1024 on the repaired tree): +127 is the largest encodable value, +-128 and beyond must be
